@@ -32,7 +32,7 @@ func isCacheCall(ci ssa.CallInstruction, field string, methods ...string) bool {
 func c20(c *Ctx) {
 	p, r := c.P, c.R
 	r.Technique = "constant and slice-bound extraction of the target selection; must-pass-through (cut) checks of the candidate gates; writer/reader agreement of the radius cache key and per-payload-type coverage of ping and pong paths; outcome-independence check (no exit that depends on the ENR refresh result before the radius is recorded)"
-	r.Explanation = "Decides: (R1) gossip draws its candidates from the 32 table nodes nearest the content id and offers to candidates[:4] plus at most min(4, rest) of the shuffled rest (so at most 8); (R2) a node becomes a candidate only when its radius was found in the cache, the in-range helper applied to (that node's id, that decoded radius, the content id) is true, and - when a source is given - its id differs from the source; the cached radius is decoded little-endian (wire value; shared with C06.R1); (R3) every request enqueued carries the full list built from all key/content pairs; (R4) radius bookkeeping: the radius cache is written only by the one update helper (with the radius taken from the payload) and by manual AddEnr (maximum); the cache key is the node id's string form at every reader and writer; for every ping-extension payload type that carries a data radius both the ping path and the pong path dispatch to a processor that feeds that radius to the update helper; on neither path does an exit depend on the outcome of the ENR refresh that precedes the dispatch (a failed refresh must not drop the reported radius); (R5) pong builders answer with the store's current radius. Permit handling is C16. Not decided: randomness quality, 'most recently reported' across concurrent interleavings of pings and pongs."
+	r.Explanation = "Decides: (R1) gossip draws its candidates from the 32 table nodes nearest the content id and offers to candidates[:4] plus at most min(4, rest) of the shuffled rest (so at most 8); (R2) a node becomes a candidate only when its radius was found in the cache, the in-range helper applied to (that node's id, that decoded radius, the content id) is true, and - when a source is given - its id differs from the source; the loop that collects candidates runs over the whole nearest-nodes list (no early exit towards a success return); the cached radius is decoded little-endian (wire value; shared with C06.R1); (R3) every request enqueued carries the full list built from all key/content pairs; (R4) radius bookkeeping: the radius cache is written only by the one update helper (with the radius taken from the payload) and by manual AddEnr (maximum); the cache key is the node id's string form at every reader and writer; for every ping-extension payload type that carries a data radius both the ping path and the pong path dispatch to a processor that feeds that radius to the update helper; on neither path does an exit depend on the outcome of the ENR refresh that precedes the dispatch (a failed refresh must not drop the reported radius); (R5) pong builders answer with the store's current radius. Permit handling is C16. Not decided: randomness quality, 'most recently reported' across concurrent interleavings of pings and pongs."
 	r.Assumptions = []string{"fastcache is a faithful map", "findNodesCloseToContent returns nodes ordered by distance (C08.R3)"}
 	r.Floor("R1.selection-bounds", 5)
 	r.Floor("R2.candidate-gates", 3)
@@ -188,6 +188,21 @@ func c20(c *Ctx) {
 	}
 	if len(candAppends) == 0 {
 		r.Fail("R2.candidate-gates", gname+" candidate-list", p.Pos(gossip.Pos()), "no candidate list is built")
+	}
+	// every one of the nearest nodes is considered: the loop that collects the covered nodes runs
+	// to the end of the list; leaving it early (e.g. once 8 were found) turns "4 at random among the
+	// other covered ones" into "the 5th to 8th nearest, always"
+	if len(candAppends) > 0 {
+		if loop, header := core.LoopOf(candAppends[0].Block()); header != nil {
+			anyExit := func(prev, b *ssa.BasicBlock) bool {
+				_, isRet := b.Instrs[len(b.Instrs)-1].(*ssa.Return)
+				return isRet && core.SuccessTarget(gossip, nil)(prev, b)
+			}
+			w := core.LoopEarlyExit(gossip, loop, header, anyExit)
+			r.Check(w == nil, "R2.candidate-gates", gname+" all-nearest-considered", p.Pos(candAppends[0].Pos()), "the candidate loop runs over the whole nearest-nodes list", "the candidate loop can stop before the end of the nearest-nodes list and gossip goes on with what was collected: covered nodes farther down the list can never be chosen as random targets: "+p.PathString(w))
+		} else {
+			r.Fail("R2.candidate-gates", gname+" all-nearest-considered", p.Pos(candAppends[0].Pos()), "the candidate list is not built in a loop over the nearest nodes")
+		}
 	}
 	for i, ap := range candAppends {
 		node := core.VariadicElems(ap.Call.Args[1])[0]
@@ -389,6 +404,7 @@ func c20(c *Ctx) {
 	}
 	// processors: functions calling the updater with payload.DataRadius
 	procByType := map[string]*ssa.Function{}
+	direct := map[*ssa.Function]map[string]bool{} // function -> payload types whose radius it feeds to the updater itself
 	for fn, cs := range p.CallersOfFn(updater) {
 		for _, ci := range cs {
 			a := ci.Common().Args
@@ -402,6 +418,10 @@ func c20(c *Ctx) {
 			}, core.DeriveOpts{})
 			if ptype != "" {
 				procByType[ptype] = fn
+				if direct[fn] == nil {
+					direct[fn] = map[string]bool{}
+				}
+				direct[fn][ptype] = true
 			} else {
 				r.Fail("R4.payload-coverage", core.FuncName(fn)+" radius-operand", p.Pos(ci.Pos()), "the radius given to the update helper is not the payload's data radius")
 			}
@@ -434,18 +454,31 @@ func c20(c *Ctx) {
 	sort.Strings(radTypes)
 	r.Count("radius_payload_types", len(radTypes))
 	// dispatchers: functions calling >= 2 processors
-	var dispatchers []*ssa.Function
-	for _, fn := range p.ModuleFuncs() {
-		n := 0
+	// covered(fn): payload types whose radius is recorded by fn itself (a processor written out in
+	// the dispatcher) or by a processor fn hands a payload of that type to
+	covered := func(fn *ssa.Function) map[string]bool {
+		out := map[string]bool{}
+		for t := range direct[fn] {
+			out[t] = true
+		}
 		core.Calls(fn, func(ci ssa.CallInstruction) {
 			f := core.StaticCalleeFn(ci)
-			for _, pf := range procByType {
-				if f == pf {
-					n++
-				}
+			if f == nil || f == fn || len(direct[f]) == 0 {
+				return
+			}
+			a := ci.Common().Args
+			if len(a) == 0 {
+				return
+			}
+			if pt, isP := a[len(a)-1].Type().(*types.Pointer); isP && direct[f][core.TypeName(pt.Elem())] {
+				out[core.TypeName(pt.Elem())] = true
 			}
 		})
-		if n >= 2 {
+		return out
+	}
+	var dispatchers []*ssa.Function
+	for _, fn := range p.ModuleFuncs() {
+		if len(covered(fn)) >= 2 {
 			dispatchers = append(dispatchers, fn)
 		}
 	}
@@ -454,22 +487,9 @@ func c20(c *Ctx) {
 	}
 	for _, d := range dispatchers {
 		dname := core.FuncName(d)
+		cov := covered(d)
 		for _, t := range radTypes {
-			pf := procByType[t]
-			ok := false
-			if pf != nil {
-				core.Calls(d, func(ci ssa.CallInstruction) {
-					if core.StaticCalleeFn(ci) != pf {
-						return
-					}
-					a := ci.Common().Args
-					pl := a[len(a)-1]
-					// the payload passed has this concrete type
-					if pt, isP := pl.Type().(*types.Pointer); isP && core.TypeName(pt.Elem()) == t {
-						ok = true
-					}
-				})
-			}
+			ok := cov[t]
 			r.Check(ok, "R4.payload-coverage", dname+" payload "+t, p.Pos(d.Pos()), "this payload type's radius reaches the radius cache on this path", "a radius reported in a "+t+" payload is not recorded on this path (gossip keeps using an older radius)")
 		}
 		// refresh independence: no exit depends on the ENR refresh outcome
